@@ -4,6 +4,24 @@ import json, sys, os
 
 CHECKS = {
  # id: (category, technique, design_ref, text, note)
+ "C07": ("exploration", "bounded-exhaustive enumeration of grammar derivations x layouts against the generator's prescribed tree", "DESIGN.md §4 C07",
+         "Every expression tree over 24 node kinds up to N internal nodes (minimal, full and redundant parentheses), every operator production with every combination of optional parts, all two-operator pipelines over representatives, lets and empty statements, each in uniform, one-gap-at-a-time and (short programs) all separator assignments over 6 separators, is parsed by the real parser and compared field by field with the tree the grammar prescribes.",
+         "generator's grammar (DESIGN.md §1) is the documented grammar; printer validated by the reference tokenizer"),
+ "C08": ("exploration", "bounded-exhaustive enumeration of token sequences and corruptions; accepted sources must re-print to their own token sequence", "DESIGN.md §4 C08",
+         "All lexeme sequences up to L tokens over three lexeme alphabets (one under four fixed prefixes) and every single-token corruption (thorough: pairs) of the grammar corpus; whenever Parse succeeds an independent tree printer must reproduce Scan(source) minus the three permitted absences.",
+         "tree printer reads exported fields only; keyword synonyms accepted as alternatives"),
+ "C10": ("exploration", "bounded-exhaustive enumeration of derivations x layouts with spans computed by the generator's printer; reflection over failed parses", "DESIGN.md §4 C10",
+         "Same derivations and layouts as C07 (multi-line, tabs, CRLF, comments, non-ASCII strings): every recorded span field and every node's Span() must equal the byte extent recorded by the printer.",
+         "printer's span bookkeeping; documented two-token keyword spans (sort by, nulls first)"),
+ "C11": ("exploration", "bounded-exhaustive enumeration of programs x prune points against a reflection-based reference traversal", "DESIGN.md §4 C11",
+         "Every corpus statement and every expression tree up to N internal nodes is walked without pruning and with every visited node (thorough: pairs) as prune point; visit set, order and pruning are compared with a traversal derived by reflection from exported fields.",
+         "the two documented exceptions (CallExpr.Func, JoinOperator.Flavor)"),
+ "C12": ("exploration", "bounded-exhaustive enumeration of byte strings, token sequences, corruptions and parametric nesting families under a watchdog", "DESIGN.md §4 C12",
+         "Scan, SplitStatements, Parse, Walk and Compile (three option values) are run on every enumerated input; panics are recovered and reported, a case over 10 s is a hang, worker death is attributed by the parent process.",
+         "10 s threshold; families up to 2 KiB quick / 8 KiB thorough"),
+ "C13": ("exploration", "bounded-exhaustive planting of one rule violation per program at every slot x nesting context, plus either/or contract on all token sequences", "DESIGN.md §4 C13",
+         "15 expression slots x 13 nesting wrappers x every documented rule (arity 0..4 of each built-in, $left/$right outside on, open names in let values, join kinds, row counts, statement counts): the planted program must fail, its twin must compile; SQL-xor-error on every enumerated source.",
+         "rule list of the property statement"),
  "C09": ("exploration", "bounded-exhaustive input enumeration against a reference tokenizer (explicit-state exploration of the scanner)", "DESIGN.md §4 C09",
          "Every byte string over a 36-symbol adversarial alphabet (and number/string/identifier sub-alphabets) up to a stated length is scanned by the real lexer and compared token by token with an independently written longest-match tokenizer; partition, re-scan and accessor laws are checked on each. Complete below the bound, silent beyond it.",
          "reference tokenizer harness/reftok encodes the token definitions of the property statement; alphabet has one representative per character class"),
